@@ -462,6 +462,11 @@ class Harness:
             self.check_warnings()
             if not innermost_is_urwid(e):
                 raise
+            if type(e).__name__ == "ListBoxError":
+                # the ListBox's own scrolling arithmetic gave up (typically a Pile handed it 0 rows): C07's
+                # subject, treated like the same error from render() below - out of scope, counted
+                stat(f"out-of-scope:{what}:ListBoxError")
+                raise Discard() from e
             v = Violation(f"exception:{type(e).__name__}@{urwid_frame(e)}", f"{type(e).__name__}: {e}")
             for pred in self.known.values():
                 try:
@@ -683,14 +688,14 @@ class Harness:
         self.guarded(lambda: self.root.w.mouse_event(self.size(), "mouse press", 1, col, row, True), "mouse_event")
 
     def bad_value(self, node, k):
+        """an invalid position *of the position type* (type hints: int for the list-like containers and the
+        list walkers, one of the part names for Frame).  Values of another type (None, 'x', 0.5) are outside
+        the documented input domain: MonitoredFocusList answers them with a deliberate TypeError, so demanding
+        IndexError for them would over-read "assigning an invalid position raises IndexError"."""
         k = int(k) % 4
-        if k == 0:
-            return None
-        if k == 1:
-            return "x"
-        if k == 2:
-            return 0.5
-        return 0 if node.kind == "frame" else "body"
+        if node.kind == "frame":
+            return ("x", "", "Body", "head")[k]
+        return (99, -99, 1000, -7)[k]
 
     def op_focus(self, op):
         node = self.pick(self.containers(), op[1])
@@ -1214,18 +1219,6 @@ def shard(ctx):
 
 
 
-def _k_listbox_type(sub, case, v):
-    return v.clause == "invalid-assign-indexerror" and v.message.startswith("kind=lb ") and " raised=TypeError:" in v.message
-
-
-def _k_float_position(sub, case, v):
-    return (
-        v.clause == "invalid-assign-indexerror"
-        and v.message.split(" ", 1)[0] in ("kind=pile", "kind=cols", "kind=grid")
-        and " value_type=float raised=TypeError:" in v.message
-    )
-
-
 def _k_empty_columns(sub, case, v):
     return v.clause == "exception:IndexError@widget/columns.py:focus_position" and "Columns is empty" in v.message
 
@@ -1248,8 +1241,6 @@ def _k_empty_gridflow(sub, case, v):
 
 KNOWN = {
     "C08-empty-gridflow-cursor": _k_empty_gridflow,
-    "C08-listbox-position-type": _k_listbox_type,
-    "C08-float-position-type": _k_float_position,
     "C08-empty-columns-input": _k_empty_columns,
     "C08-gridflow-selectable-stale": _k_gridflow_selectable,
     "C08-frame-falsy-part": _k_frame_falsy_part,
